@@ -60,11 +60,13 @@ type model struct {
 	eof           string
 	justDelivered bool // the most recent read/peek operation was the read that delivered end_of_file
 	grew          bool // input has arrived since the last read / peek: the stream cannot know yet
+	broken        bool // a get_char met input that is no character: where the cursor is afterwards is not modelled
 }
 
 const (
 	valEOF  = "end_of_file"
 	errPast = "ERR:past_end_of_stream"
+	errRepr = "ERR:representation_error(character)"
 )
 
 // atEnd gives the acceptable outcomes of a read/peek at the end of the source.
@@ -92,6 +94,15 @@ func (m *model) char(peek bool) []string {
 		return m.atEnd(peek)
 	}
 	r, sz := utf8.DecodeRune(m.src[m.cur:])
+	if r == utf8.RuneError {
+		// an invalid byte or a literal U+FFFD: no character (representation_error); a peek leaves it where it is
+		if !peek {
+			m.cur += sz
+			m.peekedEOF = false
+			m.broken = true
+		}
+		return []string{errRepr, "c:\uFFFD"} // (a system that delivers the replacement character instead is not faulted)
+	}
 	if !peek {
 		m.cur += sz
 		m.peekedEOF = false
@@ -340,8 +351,8 @@ func checkIn(c Case) (st stats, err error) {
 					switch o {
 					case "c:x", "b:120":
 						want = append(want, "a:y")
-					case errPast:
-						want = append(want, errPast)
+					case errPast, errRepr:
+						want = append(want, o)
 					default:
 						want = append(want, "a:n")
 					}
@@ -364,6 +375,15 @@ func checkIn(c Case) (st stats, err error) {
 					continue // the text at the cursor is outside the modelled syntax: the operation is not issued
 				}
 				goal, want = fmt.Sprintf("read_term(%s, %s, [])", alias, v), w
+			case "seek":
+				// repositioning to where the stream is: nothing moves (only on a repositionable stream with input left;
+				// set_stream_position/2 clears the end-of-stream state, which is not modelled)
+				if c.Stream != "file" || m.cur >= len(m.src) {
+					st.skipped++
+					continue
+				}
+				goal = fmt.Sprintf("%s, stream_property(R%d, position(P%d)), set_stream_position(R%d, P%d), %s = done", streamGoal(alias, fmt.Sprintf("R%d", oi)), oi, oi, oi, oi, v)
+				want = []string{"a:done"}
 			case "pos":
 				if grow != nil { // (what the position counts after a reset is not part of the property)
 					st.skipped++
@@ -405,7 +425,7 @@ func checkIn(c Case) (st stats, err error) {
 			goals, expect, vars = append(goals, goal), append(expect, want), append(vars, v)
 			descr = append(descr, op)
 			for _, w := range want {
-				if w == errPast {
+				if w == errPast || w == errRepr {
 					stop = true // an (acceptable) error ends the conjunction
 				}
 			}
@@ -420,6 +440,12 @@ func checkIn(c Case) (st stats, err error) {
 		if res.Err != nil {
 			f := sut.Formal(res.Err)
 			isPast := f != nil && f.Is("permission_error", 3) && f.A[0].IsAtom("input") && f.A[1].IsAtom("past_end_of_stream")
+			if f != nil && f.Is("representation_error", 1) && f.A[0].IsAtom("character") && oneOf(errRepr, last) {
+				if m.broken {
+					break // (a consuming read of a non-character: the rest of the history is not modelled)
+				}
+				continue
+			}
 			if !isPast || !oneOf(errPast, last) {
 				return st, fmt.Errorf("query %d %s (operations %v) raised %s; expected %v", qi+1, q, descr, res.Err, expect)
 			}
@@ -435,6 +461,9 @@ func checkIn(c Case) (st stats, err error) {
 			if !oneOf(got, expect[k]) {
 				return st, fmt.Errorf("query %d %s: operation %d (%s) delivered %s, the cursor model expects %v (all expectations %v)", qi+1, q, k+1, descr[k], res.Answers[0][k], expect[k], expect)
 			}
+		}
+		if m.broken {
+			break
 		}
 		if oneOf(errPast, last) && len(last) > 1 {
 			// the ambiguous read after a peeked end delivered end_of_file: it counts as delivered (already set)
@@ -557,7 +586,7 @@ func genSrc(t *rapid.T) string {
 	for k := 0; k < n; k++ {
 		switch u(t, 8, "seg") {
 		case 0:
-			b.WriteString([]string{"é", "日", " ", "\n", "x", "😀", "\t"}[u(t, 7, "junk")])
+			b.WriteString([]string{"é", "日", " ", "\n", "x", "😀", "\t", "\xff", "\uFFFD"}[u(t, 9, "junk")])
 		default:
 			if u(t, 3, "lead") == 0 {
 				b.WriteString([]string{" ", "\n", "% c\n", "  ", "%\n"}[u(t, 5, "layout")])
@@ -616,6 +645,9 @@ func genCase() *rapid.Generator[Case] {
 		if c.Binary {
 			pool = binOps
 		}
+		if c.Stream == "file" {
+			pool = append(append([]string{}, pool...), "seek")
+		}
 		for q, nq := 0, 1+u(t, 5, "nq"); q < nq; q++ {
 			var ops []string
 			for k, n := 0, 1+u(t, 4, "nops"); k < n; k++ {
@@ -637,7 +669,7 @@ func genCase() *rapid.Generator[Case] {
 func TestProp(t *testing.T) {
 	r := h.Start(t, "C19")
 	defer r.Finish(t)
-	r.Rule("rapid-generated cases. Input: a source assembled from segments (a lower-case atom or integer, an end '.', layout / comments, and arbitrary characters incl. multi-byte, with and without trailing layout after the last term, so the model knows where every term ends without a second parser) x a stream kind (a file opened with open/4 as text or binary with each eof_action; host readers given to SetUserInput: strings.Reader, one-byte reader, a reader returning its last data together with EOF, a half reader, a reader the host appends to after it was drained (eof_action reset goes on with the new input); text or binary) (one case in twelve: behind about 4096 or 8192 spaces, all but a few of which a get loop consumes first, so that the operations straddle a buffer boundary) x 1-5 queries of 1-4 operations each from {get_char/get_byte (also with the character / byte given: it is consumed whether it matches or not), peek_char/peek_byte, read_term, at_end_of_stream, stream_property position, stream_property end_of_stream} - operations are issued both in separate queries and as conjunctions inside one query. Oracle: a cursor model (bytes, cursor, end_of_file delivered): peeks return what the next read returns and move nothing; consecutive reads deliver consecutive characters, bytes or terms; read_term leaves the cursor right after the end '.'; at the end end_of_file / -1 is delivered once and then eof_action applies (a peek that showed end_of_file changes nothing: the next consuming read still delivers it); position = bytes consumed; end_of_stream is 'not' while input remains and 'past' once end_of_file was delivered by a read. A read_term whose text at the cursor is outside the modelled syntax is not issued. Output: put_char, nl, write, write_term, put_byte sequences on a file or a host writer (text and binary): after close / flush_output the sink holds exactly the concatenation in program order. Non-trivial: a sequence mixing >= 2 operation kinds with a peek followed by another kind, or reaching the end of the source. Distinct by case.",
+	r.Rule("rapid-generated cases. Input: a source assembled from segments (a lower-case atom or integer, an end '.', layout / comments, and arbitrary characters incl. multi-byte, with and without trailing layout after the last term, so the model knows where every term ends without a second parser) x a stream kind (a file opened with open/4 as text or binary with each eof_action; host readers given to SetUserInput: strings.Reader, one-byte reader, a reader returning its last data together with EOF, a half reader, a reader the host appends to after it was drained (eof_action reset goes on with the new input); text or binary) (one case in twelve: behind about 4096 or 8192 spaces, all but a few of which a get loop consumes first, so that the operations straddle a buffer boundary) x 1-5 queries of 1-4 operations each from {get_char/get_byte (also with the character / byte given: it is consumed whether it matches or not), peek_char/peek_byte, read_term, at_end_of_stream, stream_property position, stream_property end_of_stream, and on files set_stream_position to the position the stream is at} (sources contain now and then an invalid UTF-8 byte or a literal U+FFFD: peek_char raises representation_error(character) and moves nothing; after a get_char that met it the history ends) - operations are issued both in separate queries and as conjunctions inside one query. Oracle: a cursor model (bytes, cursor, end_of_file delivered): peeks return what the next read returns and move nothing; consecutive reads deliver consecutive characters, bytes or terms; read_term leaves the cursor right after the end '.'; at the end end_of_file / -1 is delivered once and then eof_action applies (a peek that showed end_of_file changes nothing: the next consuming read still delivers it); position = bytes consumed; end_of_stream is 'not' while input remains and 'past' once end_of_file was delivered by a read. A read_term whose text at the cursor is outside the modelled syntax is not issued. Output: put_char, nl, write, write_term, put_byte sequences on a file or a host writer (text and binary): after close / flush_output the sink holds exactly the concatenation in program order. Non-trivial: a sequence mixing >= 2 operation kinds with a peek followed by another kind, or reaching the end of the source. Distinct by case.",
 		"the cursor model in props/c19", "behaviour after a syntax error in read_term and the at/not distinction when the source is exhausted but has not said so are not asserted")
 	r.Regress(t)
 	if r.Failed() {
